@@ -830,6 +830,12 @@ TOP:
 		fd.mu.Unlock()
 		switch {
 		case 0 < len(goField):
+			// A struct field takes no arguments but the ones of the
+			// request still have to be what the schema asks for.
+			if _, ea2 := root.formArgs(vars, field, fd); 0 < len(ea2) {
+				ea = append(ea, ea2...)
+				return
+			}
 			if ov.Kind() == reflect.Ptr {
 				ov = ov.Elem()
 			}
